@@ -14,7 +14,7 @@ ID = "C10"
 RULE = ("Genomes of 1..4 chromosomes with sizes 1..S, with names where one is a prefix of another (chr1, chr10) and optionally one with an "
         "underscore (ignored by default, kept under keep_all), in an order where the underscore name need not be last. Interval and location sets "
         "per chromosome with emphasis on an interval ending exactly at a chromosome end followed by one starting at position 0 of the next, and "
-        "on chromosomes without entries; entries are given in arbitrary order. Operations: get_mask, get_pileup (also through the streamed per-chromosome evaluation of the sorted entries in two chunks), sorted, merged(d), clip, "
+        "on chromosomes without entries; entries are given in arbitrary order. Operations: get_mask (as a dense array and read back as intervals), get_pileup (also through the streamed per-chromosome evaluation of the sorted entries in two chunks), sorted, merged(d), clip, "
         "extended_to_size, get_location(start|stop|center), GenomicLocation.get_windows, GenomicArray[intervals] (reversed on '-'), "
         "GenomicSequence[intervals] through the dict backend and through an indexed FASTA written to disk (reverse complement on '-'), the "
         "Geometry helpers, and GlobalOffset conversions. Oracles: (a) the result for chromosome c equals the single-contig model applied to "
@@ -26,7 +26,7 @@ ASSUMPTIONS = [
     "Entries on ignored chromosomes are dropped by Genome.get_intervals / get_locations; the model does the same.",
 ]
 REQUIRED_CLASSES = ["two-or-more-chromosomes", "ends-at-chromosome-end", "starts-at-0-of-next", "empty-chromosome", "prefix-names", "underscore-name",
-                    "keep_all", "minus-strand", "boundary-pair"]
+                    "keep_all", "minus-strand", "boundary-pair", "covered-run-through-a-whole-chromosome"]
 BOUNDS = {"quick": "exhaustive GlobalOffset bijection for every generated genome; 2000 sampled genomes with sizes up to 12",
           "thorough": "48000 sampled genomes with sizes up to 40"}
 BUDGET_S = {"quick": 200, "thorough": 1500}
@@ -68,6 +68,8 @@ def classify(case):
             touch = True
             if i + 1 < len(names) and any(a == 0 for a, b, s in per[names[i + 1]]):
                 cl.append("boundary-pair")
+                if i + 2 < len(names) and any(a == 0 and b == sizes[names[i + 1]] for a, b, s in per[names[i + 1]]) and any(a == 0 for a, b, s in per[names[i + 2]]):
+                    cl.append("covered-run-through-a-whole-chromosome")
         if i > 0 and any(a == 0 for a, b, s in per[n]):
             cl.append("starts-at-0-of-next")
             touch = True
@@ -144,6 +146,24 @@ def check(case, stats=None):
                 break
     if out:
         return out[:1]
+
+    # --- the mask read back as intervals: maximal covered runs of each chromosome, none crossing a boundary -----------
+    md = guard("get_mask().get_data()", lambda: gi.get_mask().get_data())
+    if md is not None:
+        got_runs = list(zip(_names(md.chromosome, names), np.asarray(md.start).tolist(), np.asarray(md.stop).tolist()))
+        want_runs = []
+        for n in names:
+            cov = c08.cover([(a, b) for a, b, s in per[n]], sizes[n])
+            start = None
+            for p_, v_ in enumerate(list(cov) + [0]):
+                if v_ and start is None:
+                    start = p_
+                elif not v_ and start is not None:
+                    want_runs.append((n, start, p_))
+                    start = None
+        if got_runs != want_runs:
+            out.append(Failure("C10:mask-as-intervals", {"expected": want_runs, "actual": got_runs}))
+            return out[:1]
 
     # --- the same pileup through the streamed (per-chromosome) evaluation ------------------------------
     from bionumpy.streams import NpDataclassStream
@@ -387,6 +407,12 @@ def c10_case(draw, Smax):
         i = draw(st.integers(0, len(genome) - 2))
         ivs.append([i, max(0, genome[i][1] - draw(st.integers(1, 3))), genome[i][1], "+"])
         ivs.append([i + 1, 0, min(genome[i + 1][1], draw(st.integers(1, 3))), "-"])
+    # a covered stretch that runs through a whole chromosome: end of i, all of i+1, start of i+2
+    if len(genome) >= 3 and draw(st.integers(0, 2)) == 0:
+        i = draw(st.integers(0, len(genome) - 3))
+        ivs.append([i, max(0, genome[i][1] - draw(st.integers(1, 2))), genome[i][1], "+"])
+        ivs.append([i + 1, 0, genome[i + 1][1], "-"])
+        ivs.append([i + 2, 0, min(genome[i + 2][1], draw(st.integers(1, 2))), "+"])
     ivs = draw(st.permutations(ivs))
     locs = [[ci, draw(st.sampled_from([0, size - 1, draw(st.integers(0, size - 1))]))] for ci, (n, size) in enumerate(genome) for _ in range(draw(st.integers(0, 2)))]
     locs = draw(st.permutations(locs))
